@@ -261,6 +261,10 @@ pub struct EnvPlan {
     pub names: Vec<String>,
     pub set_bits: usize,
     pub clients: u8,
+    /// symbol ids of the variables (strictly increasing, nvars + 2 entries); empty = 0, 1, 2, ..
+    /// (`sparse ids`: non-adjacent, large variable indices)
+    #[serde(default)]
+    pub ids: Vec<usize>,
     pub steps: Vec<Step>,
 }
 
@@ -547,6 +551,17 @@ pub fn gen_plan(rng: &mut Prng, property: &str, tier: &Tier) -> EnvPlan {
         steps.push(Step { foreign, client, keep, op });
     }
 
+    let ids: Vec<usize> = if property != "C19" && !set_heavy && rng.chance(1, 3) {
+        let mut v = Vec::new();
+        let mut next = rng.below(5);
+        for _ in 0..nvars + 2 {
+            v.push(next);
+            next += *rng.pick(&[1usize, 1, 2, 7, 100, 1 << 20, 1 << 40]);
+        }
+        v
+    } else {
+        Vec::new()
+    };
     EnvPlan {
         property: property.to_string(),
         world,
@@ -554,6 +569,7 @@ pub fn gen_plan(rng: &mut Prng, property: &str, tier: &Tier) -> EnvPlan {
         names,
         set_bits,
         clients,
+        ids,
         steps,
     }
 }
@@ -867,10 +883,36 @@ struct LogEntry<S: BDDSymbol> {
     res: Res<S>,
 }
 
+/// Names and symbol ids of the run's variables.
+pub struct Syms {
+    pub names: Vec<Rc<String>>,
+    pub ids: Vec<usize>,
+}
+
+impl Syms {
+    pub fn id(&self, i: usize) -> usize {
+        if self.ids.is_empty() {
+            i
+        } else if i < self.ids.len() {
+            self.ids[i]
+        } else {
+            self.ids[self.ids.len() - 1] + 1 + (i - self.ids.len())
+        }
+    }
+    pub fn index_of(&self, id: usize) -> usize {
+        if self.ids.is_empty() {
+            id
+        } else {
+            self.ids.iter().position(|x| *x == id).unwrap_or(usize::MAX)
+        }
+    }
+}
+
 pub trait World: Sized {
     type S: BDDSymbol + 'static;
     type Ext;
-    fn sym(names: &[Rc<String>], i: usize) -> Self::S;
+    fn sym(syms: &Syms, i: usize) -> Self::S;
+    /// raw symbol id
     fn idx(s: &Self::S) -> usize;
     fn new_ext() -> Self::Ext;
     /// extra roots whose nodes must satisfy the sharing invariant (diagrams held inside sets ...)
@@ -882,7 +924,7 @@ pub trait World: Sized {
 pub struct Exec<'p, W: World> {
     plan: &'p EnvPlan,
     n: usize,
-    names: Vec<Rc<String>>,
+    names: Rc<Syms>,
     env: Rc<BDDEnv<W::S>>,
     /// a second, long-lived environment: source of `cross-env` operands (C02)
     env2: BDDEnv<W::S>,
@@ -919,8 +961,8 @@ pub struct NExt {
 impl World for UWorld {
     type S = usize;
     type Ext = BTreeMap<usize, SetSlot>;
-    fn sym(_: &[Rc<String>], i: usize) -> usize {
-        i
+    fn sym(syms: &Syms, i: usize) -> usize {
+        syms.id(i)
     }
     fn idx(s: &usize) -> usize {
         *s
@@ -939,14 +981,14 @@ impl World for UWorld {
 impl World for NWorld {
     type S = NamedSymbol;
     type Ext = NExt;
-    fn sym(names: &[Rc<String>], i: usize) -> NamedSymbol {
+    fn sym(syms: &Syms, i: usize) -> NamedSymbol {
         NamedSymbol {
-            name: if i < names.len() {
-                Rc::clone(&names[i])
+            name: if i < syms.names.len() {
+                Rc::clone(&syms.names[i])
             } else {
                 Rc::new(format!("__extra{i}"))
             },
-            id: i,
+            id: syms.id(i),
         }
     }
     fn idx(s: &NamedSymbol) -> usize {
@@ -978,7 +1020,10 @@ fn viol(property: &str, oracle: &str, site: &str, step: usize, detail: String) -
 
 impl<'p, W: World> Exec<'p, W> {
     fn new(plan: &'p EnvPlan) -> Self {
-        let names: Vec<Rc<String>> = plan.names.iter().map(|s| Rc::new(s.clone())).collect();
+        let names = Rc::new(Syms {
+            names: plan.names.iter().map(|s| Rc::new(s.clone())).collect(),
+            ids: plan.ids.clone(),
+        });
         let env = Rc::new(BDDEnv::new());
         let mut ex = Self {
             env2: BDDEnv::new(),
@@ -1023,7 +1068,8 @@ impl<'p, W: World> Exec<'p, W> {
     }
 
     fn walk(&self, node: &BDD<W::S>) -> Result<u64, String> {
-        walk64(node, self.n, &|s| W::idx(s))
+        let syms = &self.names;
+        walk64(node, self.n, &|s| syms.index_of(W::idx(s)))
     }
 
     /// A selector names "the newest live handle created at or before step (sel mod current step)".
@@ -1227,7 +1273,7 @@ impl<'p, W: World> Exec<'p, W> {
 
     fn probe_raw(&mut self, op: &Op, args: &[Rc<BDD<W::S>>]) {
         let top = |d: &Rc<BDD<W::S>>| match d.as_ref() {
-            BDD::Choice(_, s, _) => Some(W::idx(s)),
+            BDD::Choice(_, s, _) => Some(self.names.index_of(W::idx(s))),
             _ => None,
         };
         match op {
@@ -1969,7 +2015,7 @@ impl<'p> Exec<'p, UWorld> {
 
 impl<'p> Exec<'p, NWorld> {
     fn ordering(&self) -> Vec<NamedSymbol> {
-        (0..self.names.len()).map(|i| NWorld::sym(&self.names, i)).collect()
+        (0..self.names.names.len()).map(|i| NWorld::sym(&self.names, i)).collect()
     }
 
     fn formula_step(&mut self, step_no: usize, step: &Step) -> Result<bool, Violation> {
@@ -2094,8 +2140,9 @@ impl<'p> Exec<'p, NWorld> {
                     if let Err(e) = ordered_reduced(&conv) {
                         return Err(viol("C02", "K1", &opname, step_no, format!("converted diagram: {e}")));
                     }
-                    let tt = walk64(&conv, self.n, &|s: &usize| *s).map_err(|e| viol("C02", "K1", &opname, step_no, e))?;
-                    let c = canon64::<usize>(tt, self.n, &|i| i);
+                    let syms = Rc::clone(&self.names);
+                    let tt = walk64(&conv, self.n, &|s: &usize| syms.index_of(*s)).map_err(|e| viol("C02", "K1", &opname, step_no, e))?;
+                    let c = canon64::<usize>(tt, self.n, &|i| syms.id(i));
                     if *c != conv || c.get_hash() != conv.get_hash() || tt != h.tt {
                         return Err(viol("C02", "K2", &opname, step_no, format!("converted diagram is not the canonical diagram of {:#x}", h.tt)));
                     }
